@@ -281,6 +281,29 @@ Proof.
   intros Hp s Hs. specialize (Hp s Hs). unfold maybe. destruct (p s) as [[n r| | |] k]; cbn in Hp |- *; auto.
 Qed.
 
+(* what a successful Kleene loop says about the positions it went through *)
+Inductive many_ok (p : parser) : string -> list node -> string -> Prop :=
+| many_ok_nil s : many_ok p s [] s
+| many_ok_cons s x s1 xs r : fst (p s) = Ok x s1 -> many_ok p s1 xs r -> many_ok p s (x :: xs) r.
+
+Lemma kleene_loop_chain n (p : parser) s xs r : fst (kleene_loop n p s) = Ok xs r -> many_ok p s xs r.
+Proof.
+  revert s xs r; induction n as [|n IH]; intros s xs r H; [discriminate|].
+  rewrite kleene_loop_S in H.
+  destruct (p s) as [[x s1| | |] k] eqn:E; cbn [fst] in H; try discriminate.
+  - destruct (Nat.ltb (String.length s1) (String.length s)); cbn [fst] in H; [|discriminate].
+    destruct (kleene_loop n p s1) as [[xs' r'| | |] k'] eqn:E2; cbn [fst] in H; try discriminate.
+    inversion H; subst. econstructor; [now rewrite E|]. apply IH. now rewrite E2.
+  - inversion H; subst. constructor.
+Qed.
+
+Lemma kleene_chain cb (p : parser) s n r : fst (kleene cb p s) = Ok n r ->
+  exists xs, n = docb cb xs /\ many_ok p s xs r.
+Proof.
+  rewrite kleene_fst. destruct (fst (kleene_loop _ p s)) as [xs r'| | |] eqn:E; cbn; intro H; try discriminate.
+  inversion H; subst. exists xs. split; [reflexivity|]. now apply kleene_loop_chain in E.
+Qed.
+
 (* ---------- step counts ---------- *)
 Local Open Scope N_scope.
 
